@@ -178,10 +178,29 @@ def shapes():
                    "Vec<ST2m0<u8,String>>","Option<EN<u8,String,u16>>"]
     return "\n".join(code), names_ser, names_hash
 
+
+EXTRA_BOTH = ["Box<[u8]>","Box<[String]>","Rc<[u16]>","Arc<[Option<u8>]>","Box<str>","Rc<str>","Arc<str>",
+    "Box<std::path::Path>","Rc<std::path::Path>","Arc<std::path::Path>",
+    "std::borrow::Cow<'static, [u8]>","std::borrow::Cow<'static, [String]>","std::borrow::Cow<'static, std::path::Path>",
+    "std::marker::PhantomData<u8>","std::marker::PhantomData<String>",
+    "std::num::NonZeroU16","std::num::NonZeroU32","std::num::NonZeroU128","std::num::NonZeroUsize","std::num::NonZeroI8",
+    "std::num::NonZeroI16","std::num::NonZeroI64","std::num::NonZeroI128","std::num::NonZeroIsize",
+    "std::ops::RangeFrom<u8>","std::ops::RangeFrom<String>","std::ops::RangeTo<i64>","std::ops::RangeToInclusive<u16>","std::ops::RangeFull",
+    "[u8;1]","[u8;3]","[String;3]","[u8;4]","[u8;32]","[u8;33]","[Option<u8>;3]","[[u8;2];3]","[Vec<u8>;3]",
+    "(u8,u16,String,bool,i64)","(u8,u16,String,bool,i64,u32)","(u8,u16,String,bool,i64,u32,char)","(u8,u16,String,bool,i64,u32,char,Option<u8>)",
+    "(u8,u16,String,bool,i64,u32,char,Option<u8>,Vec<u8>)","(u8,u16,String,bool,i64,u32,char,Option<u8>,Vec<u8>,())",
+    "(u8,u16,String,bool,i64,u32,char,Option<u8>,Vec<u8>,(),i8)","(u8,u16,String,bool,i64,u32,char,Option<u8>,Vec<u8>,(),i8,u64)",
+    "(u8,u8,u8,u8,u8,u8,u8,u8,u8,u8,u8,u8)","(String,String,String,String,String)",
+    "Vec<(u8,u16,String,bool,i64)>","Vec<Box<str>>","Option<Arc<[u8]>>","HashMap<u8,Arc<str>>","Vec<std::ops::RangeFrom<u8>>","Option<std::ops::RangeFull>",
+    "Vec<std::marker::PhantomData<u8>>","(std::marker::PhantomData<u8>,u8)","Vec<[u8;3]>","Box<[Box<[u8]>]>"]
+EXTRA_SER = ["dashmap::DashMap<u8,String>","dashmap::DashMap<String,Vec<u8>>","dashmap::DashSet<u8>","dashmap::DashSet<String>","Vec<dashmap::DashSet<u8>>"]
+EXTRA_HASH_ONLY = ["BinaryHeap<u8>","BinaryHeap<String>","BinaryHeap<(u8,String)>","Vec<BinaryHeap<u8>>"]
+
 def main():
     ser=universe(True); hsh=universe(False)
     shape_src, s_ser, s_hash = shapes()
     ser += s_ser; hsh += s_hash
+    ser += EXTRA_BOTH + EXTRA_SER; hsh += [t for t in EXTRA_BOTH if "Cow<'static" not in t]
     ids=ident_universe()
     with open(os.path.join(HERE,"harness/vt/src/vtypes_gen.rs"),"w") as f:
         f.write("//! GENERATED by tools/gen_vtypes.py — do not edit.\n#![allow(unused_imports, clippy::all)]\n")
@@ -190,7 +209,10 @@ def main():
         f.write("pub fn run_ser(ctx: &mut Ctx) {\n")
         import json as _j
         for t in ser: f.write(f"    check_ser::<{t}>(ctx, {_j.dumps(t)});\n")
+        f.write("    check_atomics(ctx, true);\n")
         f.write("}\n\npub fn run_hash(ctx: &mut Ctx) {\n")
+        for t in EXTRA_HASH_ONLY: f.write(f"    check_hash_only::<{t}>(ctx, {_j.dumps(t)});\n")
+        f.write("    check_atomics(ctx, false);\n    check_os_strings(ctx);\n")
         for t in hsh: f.write(f"    check_hash::<{t}>(ctx, {_j.dumps(t)});\n")
         f.write("}\n\npub fn type_ids() -> Vec<(&'static str, u128)> {\n    vec![\n")
         for t in ids: f.write(f"        ({_j.dumps(t)}, <{t} as Identifiable>::STABLE_TYPE_ID.as_u128()),\n")
